@@ -89,7 +89,7 @@ func (v c18Cfg) json() string {
 
 func genC18(c *Ctx) error {
 	c.ShardSize = 60
-	c.Notes["rule"] = "sequences of 1-5 initialisations on one chaincode (a token, a contract on the base contract alone, or a token with a chaincode-specific ext_config section and validator of its own, which then gets a valid / absent / invalid section): JSON configurations rendered from a structured value by field-wise mutation of a valid one (symbol / robot key / admin / issuer / setters missing, empty or ill-formatted, token section absent, unknown field, ill-typed value, truncated JSON), legacy positional argument lists for every known channel name and unknown ones (right / wrong counts, empty arguments), each sent with an admin-OU, ordinary or malformed creator. After every step: Init verdict, whether __config changed, and probes of the configuration in force (is an invocation refused for lack of configuration, the symbol in the metadata query, which robot key opens batchExecute, whether a swap method is refused as disabled when called directly and as a task). Non-trivial: a sequence with at least one accepted and one rejected initialisation."
+	c.Notes["rule"] = "sequences of 1-5 initialisations on one chaincode (a token, a contract on the base contract alone, or a token with a chaincode-specific ext_config section and validator of its own, which then gets a valid / absent / invalid section): JSON configurations rendered from a structured value by field-wise mutation of a valid one (symbol / robot key / admin / issuer / setters missing, empty or ill-formatted, token section absent, unknown field, ill-typed value, truncated JSON), legacy positional argument lists for every known channel name and unknown ones (right / wrong counts, empty arguments), each sent with an admin-OU, ordinary or malformed creator. After every step: Init verdict, whether __config changed, and probes of the configuration in force (is an invocation refused for lack of configuration, the symbol in the metadata query, the wallets of the token section in force, which robot key opens batchExecute, whether a swap method is refused as disabled when called directly and as a task). Non-trivial: a sequence with at least one accepted and one rejected initialisation."
 	rng := c.Rng
 	symbols := []string{"TT", "T", "tt", "T1", "TT-1", "TT-", "1T", "T_T", "", "TT-A-B", "AB9", "A1-9Z", "TTé"}
 	w0 := NewWorld()
@@ -147,12 +147,23 @@ func genC18(c *Ctx) error {
 				if rng.Intn(4) == 0 {
 					cnt = rng.Intn(7)
 				}
+				// a list whose every value is well formed but which is too long or too short for this channel
+				// (e.g. the list written for another channel's layout)
+				wellFormedWrongCount := rng.Intn(4) == 0
+				if wellFormedWrongCount {
+					cnt = []int{want + 1, want + 2, want - 1, want + 1}[rng.Intn(4)]
+					c.Count(fmt.Sprintf("positional_well_formed_count_%+d", cnt-want))
+				}
 				for a := 0; a < cnt; a++ {
-					switch a {
-					case 0:
+					switch {
+					case a == 0:
 						args = append(args, "platformski")
-					case 1:
+					case a == 1 && wellFormedWrongCount:
+						args = append(args, w.Robot.SKI)
+					case a == 1:
 						args = append(args, []string{w.Robot.SKI, w.Client.SKI, "XYZ", ""}[rng.Intn(4)])
+					case wellFormedWrongCount:
+						args = append(args, addrs[rng.Intn(2)])
 					default:
 						args = append(args, addrs[rng.Intn(len(addrs))])
 					}
@@ -175,6 +186,12 @@ func genC18(c *Ctx) error {
 					v.Symbol = []string{"TT", "AB9", "A1-9Z", "TT-1"}[rng.Intn(4)]
 				}
 				v.NoSwaps, v.NoMulti = rng.Intn(3) == 0, rng.Intn(3) == 0
+				if rng.Intn(5) == 0 {
+					v.HasToken = false // the token section is optional
+				}
+				if rng.Intn(4) == 0 {
+					v.FeeSetter = c18Wallet{true, addrs[rng.Intn(2)]}
+				}
 				for m := rng.Intn(3); m > 0; m-- {
 					switch rng.Intn(12) {
 					case 0:
@@ -242,6 +259,21 @@ func genC18(c *Ctx) error {
 			} else if !refused {
 				symbol = "PROBE FAILED: " + pr.Message
 			}
+			// the token section in force (token contracts only)
+			wallets := "[]"
+			if !refused && isToken {
+				tw := w.Peer.Invoke(chName, w.Client.Creator, "tokWallets")
+				parts := []string{"PROBE FAILED: " + tw.Message}
+				if tw.OK() {
+					var joined string
+					_ = json.Unmarshal(tw.Payload, &joined)
+					parts = strings.Split(joined, "|")
+				}
+				for j := range parts {
+					parts[j] = coqStr(parts[j])
+				}
+				wallets = coqList(parts)
+			}
 			robotKey := ""
 			if !refused {
 				empty, _ := proto.Marshal(&fpb.Batch{})
@@ -282,7 +314,7 @@ func genC18(c *Ctx) error {
 					}
 				}
 			}
-			probe := fmt.Sprintf("(Probe %s %s %s %s %s %s %s)", coqBool(refused), coqStr(symbol), coqStr(robotKey), coqBool(offDirect), coqBool(offTask), coqBool(offBatchS), coqBool(offBatchM))
+			probe := fmt.Sprintf("(Probe %s %s %s %s %s %s %s %s)", coqBool(refused), coqStr(symbol), wallets, coqStr(robotKey), coqBool(offDirect), coqBool(offTask), coqBool(offBatchS), coqBool(offBatchM))
 			steps = append(steps, fmt.Sprintf("Step %s %s %s %s %s", coqBool(cr.admin), argTerm, coqBool(res.OK()), coqBool(changed), probe))
 			jsteps = append(jsteps, map[string]interface{}{"creator": cr.name, "arg": desc, "accepted": res.OK(), "message": res.Message, "probe_symbol": symbol, "probe_refused": refused})
 			if res.OK() {
